@@ -615,7 +615,7 @@ fn minimise(case: &Case, f: Found) -> (Case, Found) {
 pub fn run_shard(ctx: &ShardCtx, rep: &mut Report) {
     let total: u64 = match ctx.tier {
         Tier::Quick => ctx.scaled(480) as u64,
-        Tier::Thorough => ctx.scaled(60_000) as u64,
+        Tier::Thorough => ctx.scaled(24_000) as u64,
     };
     let mut minimised: std::collections::BTreeSet<String> = Default::default();
     for i in 0..total {
